@@ -9,7 +9,8 @@ import EventppVerif.CL.Spec
   here is the queue: slots (`BufferedItem`) that are filled, spliced between `queueList`,
   `freeList` and the per-call `tempList`/`idleList`, cleared and recycled; the
   `queueEmptyCounter` guard; the put-back of `processIf`/`processUntil`; the re-sort of
-  `OrderedQueueList`; the filter phase of `directDispatch`.
+  `OrderedQueueList`; the filter phase of `directDispatch`; the `CanContinueInvoking` policy asked
+  after each listener (`QBeh.cont`).
 
   Listeners, filters and predicates run arbitrary programs (`QProg`) that may issue any
   command, to any nesting depth.
@@ -90,6 +91,9 @@ def countCalls (tr : List QEv) (cb : Cb) : Nat := (tr.filter (QEv.isCallOf cb)).
 structure QBeh where
   run : QCall → Nat → QProg
   rewrite : Cb → Nat → Nat
+  /-- the `CanContinueInvoking` policy as a function of the argument the listeners got: evaluated
+      after each listener returns; `false` ends the dispatch.  The default policy is constantly `true`. -/
+  cont : Nat → Bool := fun _ => true
 
 inductive PMode | all | one | ifp (p : Cb) | untilp (p : Cb)
 deriving DecidableEq, Repr
@@ -106,7 +110,8 @@ inductive QFrame
   | iter (key arg : Nat) (rest : List Entry)
   /-- a processing call: the head of `todo` is the slot being examined / dispatched -/
   | proc (mode : PMode) (todo kept idle : List Slot) (phase : Phase)
-  /-- the dispatch above has just ended (no more listeners, or a filter blocked it) -/
+  /-- the dispatch above has just ended (no more listeners, a filter blocked it, or the
+      `CanContinueInvoking` policy stopped it after a listener) -/
   | done
 
 structure QCfg where
@@ -288,7 +293,9 @@ def step (b : QBeh) (c : QCfg) : Option QCfg :=
     if v then some (nextFilter b c key (b.rewrite cur arg) rest below)
     else some { c with stack := .done :: below }
   | .prog (.ret _) :: .iter key arg rest :: below =>
-    some (nextListener b c key arg rest below)
+    -- `CallbackList::operator()`: `cb(args...); return canContinueInvoking(args...);`
+    if b.cont arg then some (nextListener b c key arg rest below)
+    else some { c with stack := .done :: below }
   | .prog (.ret v) :: .proc mode (s :: rest) kept idle .pred :: below =>
     (match mode, s.ev with
     | .ifp _, some e =>
